@@ -143,20 +143,75 @@ fn check_source(rep: &Reporter, spec: &LangSpec, src: &str, max_holes: usize, st
       }
       let altered = altered.into_inner();
       if !altered.is_empty() {
-        // same structure, other leaf text. Legitimate only where the code's own leaf spells a sigil
-        // (`$` or the language's expando character), which pattern pre-processing rewrites
+        // same structure, other leaf text. Whether tree-sitter itself tokenises the cut differently
+        // out of context (then the precondition fails: not judged) or the pattern stores other text
+        // than it was given (violation) is decided by an INDEPENDENT parse of the cut: its leaves
+        // are compared with the code's leaves, holes aside. The sigils are rewritten here, not by
+        // the language's own pre-processing.
         let ex = spec.lang.expando_char();
-        // ... or where tree-sitter tokenises the cut text differently out of context (the pattern's
-        // leaf is then still a piece of the text that was handed to Pattern::try_new). A leaf whose
-        // text occurs NOWHERE in the given text was invented on the way.
-        let unexplained: Vec<&(String, String)> = altered
-          .iter()
-          .filter(|(pt, code)| !code.contains('$') && !code.contains(ex) && !pt.contains(ex) && !cut.text.contains(pt.as_str()))
-          .collect();
-        if let Some((pt, code)) = unexplained.first() {
+        if altered.iter().any(|(_, code)| code.contains('$') || code.contains(ex)) {
+          continue; // the code's own leaf spells a sigil: pre-processing legitimately rewrites it
+        }
+        let own_pre: String = if ex == '$' { cut.text.clone() } else { cut.text.replace('$', &ex.to_string()) };
+        let hole_texts: Vec<String> = cut.holes.iter().map(|(v, _)| format!("{ex}{v}")).chain(cut.multi.iter().map(|m| format!("{ex}{ex}{ex}{}", m.0))).collect();
+        // code leaves in order; a hole / the cut run contributes its placeholder
+        fn code_leaves(n: &Node<D>, cut: &Cut, out: &mut Vec<String>) {
+          let r = n.range();
+          if cut.holes.iter().any(|(_, hr)| *hr == r) {
+            out.push("<hole>".into());
+            return;
+          }
+          let ks = real_kids(n);
+          if ks.is_empty() {
+            out.push(n.text().to_string());
+            return;
+          }
+          let mut in_run = false;
+          for k in ks {
+            if let Some((_, sibs, parent)) = &cut.multi {
+              if *parent == r && k.range().start >= sibs[0].start && k.range().end <= sibs.last().unwrap().end {
+                if !in_run {
+                  out.push("<hole>".into());
+                  in_run = true;
+                }
+                continue;
+              }
+            }
+            code_leaves(&k, cut, out);
+          }
+        }
+        fn parse_leaves(n: &Node<D>, holes: &[String], out: &mut Vec<String>) {
+          if holes.iter().any(|h| *h == n.text()) {
+            out.push("<hole>".into());
+            return;
+          }
+          let ks = real_kids(n);
+          if ks.is_empty() {
+            out.push(n.text().to_string());
+            return;
+          }
+          for k in ks {
+            parse_leaves(&k, holes, out);
+          }
+        }
+        let mut want = vec![];
+        code_leaves(n, &cut, &mut want);
+        let indep = spec.lang.ast_grep(&own_pre);
+        let mut cands = vec![];
+        all_nodes(&indep.root(), &mut cands);
+        let given_right_tokens = cands.iter().any(|c| {
+          if c.kind_id() != n.kind_id() {
+            return false;
+          }
+          let mut got = vec![];
+          parse_leaves(c, &hole_texts, &mut got);
+          got == want
+        });
+        if given_right_tokens {
+          let (pt, code) = &altered[0];
           let class = if code.is_ascii() { "ascii" } else { "non-ascii" };
           rep.violation(
-            &format!("pattern-leaf-text-occurs-nowhere-in-the-pattern-source:{class}"),
+            &format!("pattern-stores-other-leaf-text-than-tree-sitter-reads-from-the-cut:{class}"),
             json!({"lang": spec.name, "src": src, "node": [n.range().start, n.range().end], "pattern": cut.text, "pattern_leaf": pt, "code_leaf": code}),
           );
         }
